@@ -7,6 +7,8 @@ cost_specification setter.
       is undone by a save-before / restore-after of the ``training`` flags in the observer.
  R18b parameters and buffers: no in-place tensor write, no structural module edit on
       objects owned by the NAS model.
+ R18e an internal forward pass triggered by an observer runs after eval() with no train(...)
+      in between (BatchNorm statistics are not updated by export).
  R18c attributes that matter: no store (attribute, dictionary key, vars() update) into an
       object owned by the NAS model unless (i) nothing ever reads that name, (ii) every
       reader rewrites the key first (kill-before-read), or (iii) the observer saves and
@@ -226,6 +228,12 @@ def run(ctx):
                where(f))
         # ---- R18c ------------------------------------------------------------------------
         fwd = [e for e in effs if e.kind == 'forward']
+        from .c07 import r07e_ob
+        done_sites = set()
+        for e in fwd:
+            if (e.fn.qualname, e.lineno) not in done_sites:
+                done_sites.add((e.fn.qualname, e.lineno))
+                r07e_ob(ctx, w.name, e, 'R18e', f.name)
         if fwd:
             for a in observed_state:
                 ok = saved_restored(ctx, f, a)
